@@ -189,7 +189,7 @@ def normalise_le(op, a_is_small, tr):
     return edges, strict
 
 
-def deep_origins(ctx, operand, depth=5):
+def deep_origins(ctx, operand, depth=5, stop=None):
     """origins of an operand, expanding call results into the origins of their arguments,
     arithmetic into its operands and discriminant reads into the place read (an
     over-approximation of data dependence inside one body)"""
@@ -203,6 +203,8 @@ def deep_origins(ctx, operand, depth=5):
         seen.add(o.ident())
         out.add(o)
         if d >= depth:
+            continue
+        if stop is not None and stop(o):
             continue
         if o.kind == "call" and o.extra is not None:
             for a in o.extra.args:
